@@ -908,6 +908,78 @@ def s_message_unpack(vc):
 
 
 # =============================================================================================
+# RDATA decompression (decoding clause: "produces a message" means every compression pointer inside the record data of a
+# name-bearing type is replaced by exactly the packed target name at exactly its own position)
+
+def _c26():
+    from props import C26
+    return C26
+
+
+RDATA_NAME_CANDS = [dict(read0_name=a, read1_name=b, before=bytes(12) + b"\x07example\x03com\x00", after=b"") for a, b in
+                    [("", "example.com"), ("m\u00fcnchen.de", "admin.m\u00fcnchen.de"), ("example.com", "b.org"), ("b\u00fccher.example", ""), ("a", "")]]
+
+
+@scenario("rdata.decompress.no_pointer_octets", functions=[DN + "decompress_from_record_data"], max_unroll=7)
+def s_rdata_plain(vc):
+    """(contract text: props/C26.py s_decompress_plain)"""
+    return _c26().s_decompress_plain.fn(vc)
+
+
+@scenario("rdata.decompress.one_name", functions=[DN + "decompress_from_record_data"], candidates=RDATA_NAME_CANDS, max_unroll=8)
+def s_rdata_one(vc):
+    """(contract text: props/C26.py s_decompress_one)"""
+    return _c26().s_decompress_one.fn(vc)
+
+
+@scenario("rdata.decompress.two_names", functions=[DN + "decompress_from_record_data"], candidates=RDATA_NAME_CANDS, max_unroll=10)
+def s_rdata_two(vc):
+    """(contract text: props/C26.py s_decompress_two)"""
+    return _c26().s_decompress_two.fn(vc)
+
+
+@scenario("rdata.decompress.names_between_fixed_fields", functions=[DN + "decompress_from_record_data"], candidates=RDATA_NAME_CANDS, max_unroll=9)
+def s_rdata_interleaved(vc):
+    """Record data laid out as [fixed][name as pointer][fixed][name as pointer][fixed] (PX: preference + two names; SOA/RP/MINFO:
+    two names + fixed fields; names separated by other fields): each pointer is read at its own position in the *original*
+    data and replaced, in place, by exactly the packed name the reader returned - whatever the lengths of the expanded names
+    (the name text and its packed form differ in length by other than 2 for the root name and for IDN names) - and every other
+    octet is unchanged and in its original order."""
+    C = _c26()
+    npre, nmid, npost = vc.case("layout", [(2, 0, 0), (0, 2, 0), (0, 1, 2)])
+    pre, mid, post = C.lit_bytes(vc, "pre", npre), C.lit_bytes(vc, "mid", nmid), C.lit_bytes(vc, "post", npost)
+    for c in pre + mid + post:
+        vc.assume(c < 192)   # fixed-field octets >= 0xC0 are the recorded class KF-C26-3 (C26)
+    a0, a1 = vc.sym_int("ptr1_hi", lo=192, hi=255), vc.sym_int("ptr1_lo", lo=0, hi=191)
+    b0, b1 = vc.sym_int("ptr2_hi", lo=192, hi=255), vc.sym_int("ptr2_lo", lo=0, hi=191)
+    prefix, suffix = vc.sym_bytes("before"), vc.sym_bytes("after")
+    rd = C.Reader(vc)
+    rdata = C.as_bytes(pre) + C.as_bytes([a0, a1]) + C.as_bytes(mid) + C.as_bytes([b0, b1]) + C.as_bytes(post)
+    out, buf, off, cache = C.call_decompress(vc, prefix, rdata, suffix, rd)
+    vc.ensure("ok", out.ok)
+    if not out.ok:
+        return
+    vc.ensure("first_name_read", len(rd.calls) >= 1)
+    if len(rd.calls) == 0:
+        return
+    c1 = rd.calls[0]
+    vc.ensure("first_name_read_at_its_pointer", c1["offset"] == off + npre)
+    if vc.branch(c1["fails"]):
+        return
+    vc.ensure("second_name_read", len(rd.calls) == 2)
+    if len(rd.calls) != 2:
+        return
+    c2 = rd.calls[1]
+    vc.ensure("second_name_read_at_its_pointer_in_the_original_data", c2["offset"] == off + npre + 2 + nmid)
+    vc.ensure("reader.whole_message_and_cache", c2["buffer"] is buf and c2["cache"] is cache and c1["buffer"] is buf and c1["cache"] is cache)
+    if vc.branch(c2["fails"]):
+        return
+    exp = C.as_bytes(pre) + C.packname(vc, c1["name"]) + C.as_bytes(mid) + C.packname(vc, c2["name"]) + C.as_bytes(post)
+    vc.ensure("every_pointer_replaced_in_place_by_the_packed_name", out.result == exp)
+    vc.ensure("result_length", len_(out.result) == npre + nmid + npost + len_(C.packname(vc, c1["name"])) + len_(C.packname(vc, c2["name"])))
+
+
+# =============================================================================================
 # T2 (bounded): the real DNSMessage codec on enumerated messages and byte strings
 
 ASSUMPTIONS = [
@@ -1096,6 +1168,39 @@ def bounded(tier, seed):
     for n in ([10, 100, 500, 3000] if quick else [10, 100, 500, 900, 1000, 1500, 3000, 8000]):
         chain = b"".join(struct.pack("!H", 0xC000 | (18 + 2 * (i + 1))) for i in range(n)) + b"\x03end\x00"
         check_decode(_hdr(q=1) + struct.pack("!H", 0xC000 | 18) + b"\x00\x01\x00\x01" + chain if 18 + 2 * n < 16384 else b"", ("pointer_chain", n))
+    # ---------------- D: record data with several compression pointers, against an independent reference decompression
+    from props.dnsref import header as H_, question as Q_, rr as RR_, ptr as PTR_, wire_name as WN_
+    ints5 = struct.pack("!IIIII", 2024010101, 7200, 3600, 1209600, 300)
+
+    def expected_rdata(parts):
+        return b"".join(x if k == "bytes" else b"".join(bytes([len(l)]) + l for l in x) + b"\x00" for k, x in parts)
+
+    zones = [("ascii", WN_("example.com")), ("idn", WN_("xn--mnchen-3ya.de")), ("idn2", WN_("xn--bcher-kva.example")), ("root", b"\x00"), ("single", WN_("a")), ("long", WN_("x" * 63 + ".y"))]
+    for zname, zw in zones:
+        P12 = PTR_(12)
+        inner = 12 + zw[0] + 1 if zw != b"\x00" and len(zw) > zw[0] + 2 else 12     # pointer to the parent domain, if there is one
+        PIN = PTR_(inner)
+        rdatas2 = [(6, P12 + P12 + ints5), (6, P12 + b"\x05admin" + P12 + ints5), (6, b"\x02ns" + P12 + P12 + ints5), (6, PIN + P12 + ints5), (6, P12 + PIN + ints5),
+                   (14, P12 + P12), (14, P12 + b"\x01e" + PIN), (17, P12 + P12), (17, b"\x04mbox" + P12 + b"\x03txt" + P12), (26, b"\x00\x0a" + P12 + P12), (26, b"\x00\x0a" + PIN + b"\x01x" + P12)]
+        for typ, rd in rdatas2:
+            for extra in ([], [RR_(P12, 6, P12 + P12 + ints5)], [RR_(P12, 1, b"\x01\x02\x03\x04")]):
+                wire = H_(0x4000, 0x8180, 1, 1 + len(extra)) + Q_(zw, typ) + RR_(P12, typ, rd) + b"".join(extra)
+                desc = ("rdata-with-two-pointers", zname, typ, rd.hex(), len(extra))
+                check_decode(wire, desc)      # totality + decode(encode(decode(b))) == decode(b)
+                try:
+                    ref = dnsref.parse_message(wire)[0]
+                except dnsref.RefError as e:
+                    b.fail("c25.generator_produces_wellformed_messages", {"desc": desc}, str(e))
+                    continue
+                kind, got = _decode(wire)
+                if kind != "msg":
+                    b.fail("c25.wellformed_message_decodes", {"desc": desc, "bytes": wire.hex()}, repr(got)[:200])
+                    continue
+                for i, (rr_ref, rr_got) in enumerate(zip(ref[2][0], got.answers)):
+                    exp = expected_rdata(rr_ref[4])
+                    if bytes(rr_got.data) != exp:
+                        b.fail("c25.rdata_decompression_matches_reference", {"desc": desc, "bytes": wire.hex(), "record": i},
+                               f"decoded rdata {bytes(rr_got.data).hex()} expected (every pointer replaced by its packed target, in place) {exp.hex()}")
     # ---------------- C: the T1 model of the idna codec vs the real codec
     labels = ["", "a", "abc", "A", "a-b", "münchen", "bücher", "例え", "x" * 63, "x" * 64, "a b", "_srv"]
     for l in labels:
